@@ -4,7 +4,7 @@ PY_PLAIN = ['none', 'bool', 'str', 'unicode', 'bytes', 'int', 'long', 'float', '
 PY_NAMED = ['name', 'module', 'object', 'object/new', 'object/apply']
 NAMES = ['os.system', 'subprocess.Popen', 'builtins.eval', 'eval', 'exec', 'print', 'open', 'yaml.load', 'os.path.join', 'os', 'sys.modules',
          'vf_canary.Canary', 'vf_canary.canary_fn', 'vf_canary.instance', 'vf_canary.VALUE', 'vf_canary.Plain', 'vf_canary', 'vf_unimported.f', 'vf_unimported.K',
-         'vf_unimported', 'vf_canary.ITER', 'vf_canary.STEPPER', 'vf_canary.Canary.computed', 'vf_canarypkg.VALUE', 'vf_canarypkg.unimp', 'vf_canarypkg.unimp.f',
+         'vf_unimported', 'vf_canary.ITER', 'vf_canary.STEPPER', 'vf_canary.PROBE', 'vf_canary.UNHASHABLE', 'vf_canary.Canary.computed', 'vf_canarypkg.VALUE', 'vf_canarypkg.unimp', 'vf_canarypkg.unimp.f',
          'vf_unimppkg.sub.f', 'vf_unimppkg.sub', 'vf_unimppkg', '', 'a.b.c.garbage', 'nosuchmodule.x', 'os.', '.system', 'os.nosuchattr', 'yaml.constructor.Constructor', 'builtins.object', 'collections.OrderedDict']
 OTHER_TAGS = ['!foo', '!f', '!int', '!str', '!seq', '!map', '!null', '!python/name:os.system', '!python/object/apply:os.system', 'tag:example.org,2011:x', P + 'x', P + 'Str', P + 'python/none:', P + 'int2', P + 'python', P + 'python/', P + 'python/object', P + 'python/name',
               P + 'python/object/apply', P + 'PYTHON/name:os.system', P + 'python/object/newer:os.system', P + 'python/namespace:os.system', 'tag:yaml.org,2002python/name:os.system',
@@ -12,7 +12,8 @@ OTHER_TAGS = ['!foo', '!f', '!int', '!str', '!seq', '!map', '!null', '!python/na
 KINDS = ['scalar_empty', 'scalar_arg', 'seq', 'map', 'map_full']
 CONTEXTS = ['root', 'seq_item', 'map_value', 'map_key', 'anchored_aliased', 'merge_value', 'merge_alias', 'merge_list', 'in_set', 'set_value', 'in_omap', 'omap_key', 'in_pairs',
             'second_doc', 'depth3', 'alias_key', 'inside_merge_source', 'value_key_value', 'value_key_sibling', 'value_key_alias',
-            'merge_overridden', 'merge_overridden_list', 'merge_overridden_deep', 'dup_key_shadowed', 'dup_key_shadowing', 'merge_twice', 'after_handle_doc', 'after_handle_doc_secondary']
+            'merge_overridden', 'merge_overridden_list', 'merge_overridden_deep', 'dup_key_shadowed', 'dup_key_shadowing', 'merge_twice', 'after_handle_doc', 'after_handle_doc_secondary',
+            'omap_key_among', 'omap_same_key_twice', 'set_same_member_twice', 'map_key_among', 'pairs_same_key_twice']
 FULL_CONTEXTS = CONTEXTS + ['in_pytuple', 'in_pydict', 'in_pylist_key']
 SPELLINGS = ['bangbang', 'verbatim', 'handle', 'percent']
 
@@ -134,6 +135,16 @@ def render(tag, kind, context, spelling='bangbang'):
         body = '!!set\n? a\n? ' + node + '\n'
     elif context == 'set_value':
         body = '!!set {a: ' + node + ' , b: }\n'
+    elif context == 'omap_key_among':
+        body = '!!omap\n- a: 1\n- ? ' + node + '\n  : 2\n- b: 3\n'
+    elif context == 'omap_same_key_twice':
+        body = '!!omap\n- ? ' + node + '\n  : 1\n- ? ' + node + '\n  : 2\n'
+    elif context == 'pairs_same_key_twice':
+        body = '!!pairs\n- ? ' + node + '\n  : 1\n- ? ' + node + '\n  : 2\n'
+    elif context == 'set_same_member_twice':
+        body = '!!set\n? ' + node + '\n? b\n? ' + node + '\n'
+    elif context == 'map_key_among':
+        body = 'a: 1\n? ' + node + '\n: 2\nb: 3\n'
     elif context == 'omap_key':
         body = '!!omap\n- ? ' + node + '\n  : 2\n'
     elif context == 'in_omap':
